@@ -418,6 +418,9 @@ def c09(run):
                     call = {"method": r["method"], "via": "direct", "b": r["b"], "names": r["names"], "n": r["n"], "m": r["m"],
                             "dag": r["dag"], "beh": beh, "tagset": []}
                     healthy = dict(call, beh={n: rng.choice(["ok", "ret"]) for n in beh})
+                    if "StopTag" in r["method"] and rng.random() < 0.4:
+                        # the faulting rule sets the stop tag just before its fault: the call stops there AND reports the fault
+                        call = dict(call, tagset=[n for n, b in beh.items() if b == "fault"])
                     sid += 1
                     sessions.append({"id": sid, "target": tgt, "gated": r["method"] not in X.SEQ_ONLY and rng.random() < 0.7,
                                      "burst": rng.random() < 0.3, "rules": decl, "calls": [call, healthy, dict(call)], "fault": code,
